@@ -13,7 +13,8 @@ ID = "C07"
 QUICK = dict(worlds=16, runs=2500, seconds=25)
 THOROUGH = dict(worlds=256, runs=6000, seconds=28)
 
-BBTYPES = {"bbA": [["a", "b"], ["y"]], "bbB": [["d"], ["q", "qn"]], "bbC": [["p"], ["z"]]}
+BBTYPES = {"bbA": [["a", "b"], ["y"]], "bbB": [["d"], ["q", "qn"]], "bbC": [["p"], ["z"]],
+           "bbD": [["a", "y"], ["y"]]}     # malformed on purpose: pin y listed in both directions (an invalid argument)
 
 CHILDREN = {
     "ch1": {"name": "ch1", "bbs": {}, "nodes": {
@@ -29,7 +30,7 @@ CHILDREN = {
         "a": ["input", [], False], "b": ["input", [], False], "t": ["xor", ["a", "b"], False],
         "y": ["nand", ["t", "a"], True]}},
 }
-CHILD_FOR_TYPE = {"bbA": ["ch1", "ch5", "ch4"], "bbB": ["ch2"], "bbC": ["ch3"]}
+CHILD_FOR_TYPE = {"bbA": ["ch1", "ch5", "ch4"], "bbB": ["ch2"], "bbC": ["ch3"], "bbD": ["ch1"]}
 
 BASE_NAMES = ["a", "b", "c", "d", "e", "f", "g", "h"]
 ODD_NAMES = ["3x", "u.y", "u.a", "u_a", "u_y", "v_q", "u_k", "zz"]
@@ -110,7 +111,7 @@ class Model:
             if inst in self.bbs:
                 return
             ins, outs = BBTYPES[tname]
-            if any(f"{inst}.{p}" in self.nodes for p in ins + outs):
+            if any(f"{inst}.{p}" in self.nodes for p in ins + outs) or set(ins) & set(outs):
                 return
             self.bbs[inst] = tname
             for p in ins:
@@ -291,6 +292,14 @@ def gen(rng, tier):
             w[i] = 0.0
     ops = []
     for _ in range(rng.randint(5, 40)):
+        if rng.random() < 0.02:
+            # "uid storm": many uid adds of one name, to walk the suffix chain (_0 .. _10, _70, ...)
+            nm = rng.choice(BASE_NAMES)
+            for _ in range(rng.randint(4, 14)):
+                op = ["add", nm, rng.choice(("buf", "and", "input")), None, None, False, True]
+                ops.append(op)
+                model.apply(copy.deepcopy(op))
+            continue
         op = gen_op(rng, model, w)
         ops.append(op)
         try:
